@@ -175,11 +175,13 @@ impl Condition {
                 } else {
                     resolve_constant(value)
                 };
-                ConditionExpression::Comparison(
-                    (*variable).to_string(),
-                    (*operator).to_string(),
-                    value,
-                )
+                // the left operand may be a constant too (`FILTER(3 < ?x)`)
+                let variable = if Self::is_variable(variable) {
+                    (*variable).to_string()
+                } else {
+                    resolve_constant(variable)
+                };
+                ConditionExpression::Comparison(variable, (*operator).to_string(), value)
             }
             FilterExpression::And(left, right) => ConditionExpression::And(
                 Box::new(Self::own_filter(left, resolve_constant)),
@@ -277,7 +279,12 @@ impl Condition {
     ) -> bool {
         match expression {
             ConditionExpression::Comparison(variable, operator, value) => {
-                let Some(result_value) = result.get(Self::normalize_variable(variable)) else {
+                let result_value = if Self::is_variable(variable) {
+                    result.get(Self::normalize_variable(variable))
+                } else {
+                    Some(variable)
+                };
+                let Some(result_value) = result_value else {
                     return false;
                 };
                 let rhs = if Self::is_variable(value) {
@@ -409,6 +416,20 @@ impl Condition {
     ) -> Option<bool> {
         match expression {
             ConditionExpression::Comparison(variable, operator, value) => {
+                if !Self::is_variable(variable) {
+                    // constant on the left
+                    let rhs = if Self::is_variable(value) {
+                        let &rhs = result.get(Self::normalize_variable(value))?;
+                        dictionary.decode(rhs).unwrap_or("")
+                    } else {
+                        value
+                    };
+                    return Self::compare_terms(
+                        Self::normalize_lexical(variable),
+                        operator,
+                        Self::normalize_lexical(rhs),
+                    );
+                }
                 let &id = result.get(Self::normalize_variable(variable))?;
                 if Self::is_variable(value) {
                     let &rhs = result.get(Self::normalize_variable(value))?;
